@@ -18,7 +18,12 @@ RULE = ('One program from the typed generator G rendered twice under two '
         'by construction); compiled at O0 and O2-g; sections 1-4 compared '
         'byte for byte, traces and outcomes compared when they differ.  '
         'Non-trivial: both accepted, the two texts differ and the two styles '
-        'differ in >= 3 rewriting kinds.  Distinct by hash of both texts.')
+        'differ in >= 3 rewriting kinds.  Distinct by hash of both texts.  '
+        'Plus a fixed catalogue of spelling pairs (DEFtype letter ranges in '
+        'every case combination, line numbers 0 / 65529 and names of any '
+        'case as targets of RESTORE / GOSUB / GOTO / ON ERROR, >< =< =>, LET '
+        '/ CALL / NEXT var, keyword case), each compared with the first '
+        'spelling of its group.')
 ASSUMPTIONS = ['the renderer only applies the rewritings the property lists '
                '(string literals, DATA text and comments are never altered)']
 CONFIGS = ((0, False), (2, True))
@@ -148,3 +153,100 @@ def shrink(failure, cfg):
             return {'bucket': b, 'detail': d, 'case': cases.encode_case(
                 small, script, s1, {'style2': s2.to_json(), 'text2': t2})}
     return failure
+
+
+# ---------------------------------------------------------------------------
+# Catalogue of spelling pairs: one hand-written program per construct whose
+# spelling the property allows to vary, in all spellings of that construct.
+# Every spelling must behave like the first one of its group.
+def _case_variants(word_pairs, template):
+    out = []
+    import itertools
+    for combo in itertools.product(*word_pairs):
+        out.append(template.format(*combo))
+    return out
+
+
+def spelling_groups():
+    groups = []
+    # DEFtype letter ranges in every letter-case combination
+    for kw, val in (('DEFINT', '7 / 2'), ('DEFLNG', '7 / 2'),
+                    ('DEFDBL', '1 / 3'), ('DEFSNG', '1 / 3')):
+        groups.append(('deftype_range_case:' + kw, _case_variants(
+            [('i', 'I'), ('n', 'N')],
+            kw + ' {0}-{1}\nk = ' + val + ': x = ' + val + ': a = ' + val +
+            ': m# = k: PRINT k; x; a; m#\n')))
+    groups.append(('deftype_range_case:DEFSTR', _case_variants(
+        [('s', 'S'), ('u', 'U')],
+        'DEFSTR {0}-{1}\nt = "a": u = t + "b": PRINT t; u; LEN(u)\n')))
+    groups.append(('deftype_two_ranges_case', _case_variants(
+        [('a', 'A'), ('c', 'C'), ('x', 'X'), ('z', 'Z')],
+        'DEFINT {0}-{1}, {2}-{3}\nb = 2.6: y = 2.6: m = 2.6: PRINT b; y; m\n'
+    )))
+    # line numbers (incl. 0) and names as targets of every label user
+    body = ('DATA 1,2\n{d} DATA 3,4\nREAD a: RESTORE {r}: READ b: PRINT a; b\n'
+            'GOSUB {r2}: GOTO {r3}\nPRINT "skipped"\n{d3} PRINT "end": END\n'
+            '{d2} PRINT "sub": RETURN\n')
+    variants = []
+    for d, d2, d3 in (('5', '7', '9'), ('0', '7', '9'), ('5', '0', '9'),
+                      ('5', '7', '0'), ('aa:', 'bb:', 'cc:'),
+                      ('Aa:', 'bB:', 'CC:'), ('65529', '1', '2')):
+        ref = [x.rstrip(':') for x in (d, d2, d3)]
+        variants.append(body.format(d=d, d2=d2, d3=d3, r=ref[0], r2=ref[1],
+                                    r3=ref[2]))
+    groups.append(('label_spelling', variants))
+    body = ('ON ERROR GOTO {r}\nx% = 1\ny% = 1 \\ (x% - 1)\nPRINT "after"\n'
+            'END\n{d} PRINT "handler"; ERR\nRESUME NEXT\n')
+    groups.append(('error_handler_label_spelling', [
+        body.format(d=d, r=d.rstrip(':')) for d in ('10', 'h:', 'H:', '65000',
+                                                    'hAnDlEr:')]))
+    # operators and keywords with alternative spellings
+    groups.append(('relational_spelling', [
+        'a% = 1: b% = 2\nPRINT a% {0} b%; a% {1} b%; a% {2} b%\n'.format(*t)
+        for t in (('<>', '<=', '>='), ('><', '=<', '=>'),
+                  ('<>', '=<', '>='), ('><', '<=', '=>'))]))
+    groups.append(('let_call_next_spelling', [
+        'x = 1\nFOR i = 1 TO 2\nx = x + i\nNEXT\ns x\nPRINT x\n'
+        'SUB s (v)\nv = v * 2\nEND SUB\n',
+        'LET x = 1\nFOR i = 1 TO 2\nLET x = x + i\nNEXT i\nCALL s(x)\n'
+        'PRINT x\nSUB s (v)\nLET v = v * 2\nEND SUB\n',
+        'let X = 1: for I = 1 to 2: let x = X + i: next I: call S(X)\n'
+        'print X\nsub S (V)\nv = V * 2\nend sub\n',
+        "x = 1 ' c\n\nFOR i = 1 TO 2 ' c\n   x = x + i\n\nNEXT\n s x\n"
+        "PRINT x\n\nSUB s (v)\n' only a comment\nv = v * 2\nEND SUB\n"]))
+    groups.append(('keyword_case', [
+        t for t in (
+            'DIM a(3) AS INTEGER\nSELECT CASE 2\nCASE 1 TO 3\na(1) = 5\n'
+            'CASE ELSE\na(1) = 6\nEND SELECT\nDO WHILE a(1) > 3\n'
+            'a(1) = a(1) - 1\nLOOP\nIF a(1) = 3 THEN PRINT "t" ELSE '
+            'PRINT "f"\nPRINT UCASE$("x"); a(1) MOD 2; NOT a(1)\n',)
+        for t in (t, t.lower(), t.swapcase(),
+                  ''.join(c.upper() if i % 2 else c.lower()
+                          for i, c in enumerate(t)))]))
+    return groups
+
+
+def items(cfg):
+    out = []
+    for name, variants in spelling_groups():
+        for k, v in enumerate(variants[1:], 1):
+            out.append((name, k, variants[0], v))
+    return out
+
+
+def check_item(item, cfg):
+    name, k, t1, t2 = item
+    if 'keyword_case' in name:
+        # string literals must stay as they are: re-insert them
+        import re
+        lits = re.findall(r'"[^"]*"', t1)
+        it = iter(lits)
+        t2 = re.sub(r'"[^"]*"', lambda m: next(it), t2)
+    failures, info = compare_texts(t1, t2, {}, cfg)
+    fl = [{'bucket': 'catalogue:%s:%s' % (name, b), 'detail': d,
+           'case': {'text': t1, 'text2': t2, 'script': {}}}
+          for b, d in failures]
+    return {'key': digest([t1, t2]), 'nontrivial': info['accepted'],
+            'classes': ['catalogue:' + name], 'failures': fl,
+            'inconclusive': info.get('inconclusive'),
+            'sample': {'text_a': t1, 'text_b': t2} if k == 1 else None}
